@@ -76,7 +76,8 @@ static inline av_t gen_scalar(Rng &r, char t, Store &st)
 
 // ---------------------------------------------------------------- flat expansion
 // a value of the expanded form: scalars, and arrays as (type 'a', elems)
-struct XV { av_t v; bool is_arr = false; char arr_type = 0; std::vector<XV> elems; };
+struct XV { av_t v; bool is_arr = false; char arr_type = 0; std::vector<XV> elems;
+            bool inf = false; bool inf_has_delta = false; av_t inf_delta, inf_start; };   // inf: endless range (only at the end of arrays)
 
 static inline bool step_value(const av_t &start, const av_t &delta, int i, av_t &out)
 {
@@ -96,7 +97,7 @@ static inline bool expand(const av_t *a, size_t n, std::vector<XV> &out, int dep
             bool hd = rtosc_av_rep_has_delta(&a[i]);
             if(i + 1 + hd >= n) return false;
             const av_t &start = a[i + 1 + hd];
-            if(num <= 0) { XV x; x.v = mk('?'); out.push_back(x); return true; }  // infinite range marker
+            if(num <= 0) { XV x; x.v = mk('?'); x.inf = true; x.inf_has_delta = hd; if(hd) x.inf_delta = a[i + 1]; x.inf_start = start; out.push_back(x); return true; }  // endless range
             if(start.type == 'a') {
                 size_t len = rtosc_av_arr_len(&start);
                 for(int k = 0; k < num; ++k) { XV x; x.is_arr = true; x.arr_type = rtosc_av_arr_type(&start); if(!expand(&start + 1, len, x.elems, depth + 1)) return false; out.push_back(x); }
@@ -139,6 +140,11 @@ static inline bool same_xv(const std::vector<XV> &a, const std::vector<XV> &b, s
     if(a.size() != b.size()) { if(why) *why = vh::fmt("%zu values vs %zu", a.size(), b.size()); return false; }
     for(size_t i = 0; i < a.size(); ++i) {
         if(a[i].is_arr != b[i].is_arr) { if(why) *why = vh::fmt("value %zu: array vs scalar", i); return false; }
+        if(a[i].inf || b[i].inf) {
+            bool ok = a[i].inf && b[i].inf && a[i].inf_has_delta == b[i].inf_has_delta && same_scalar(a[i].inf_start, b[i].inf_start) && (!a[i].inf_has_delta || same_scalar(a[i].inf_delta, b[i].inf_delta));
+            if(!ok) { if(why) *why = vh::fmt("value %zu: endless range differs", i); return false; }
+            continue;
+        }
         if(a[i].is_arr) { std::string w; if(!same_xv(a[i].elems, b[i].elems, &w)) { if(why) *why = vh::fmt("array at %zu: ", i) + w; return false; } }
         else if(!same_scalar(a[i].v, b[i].v)) { if(why) *why = vh::fmt("value %zu differs (type '%c' vs '%c')", i, a[i].v.type, b[i].v.type); return false; }
     }
